@@ -54,6 +54,7 @@ import (
 	"strconv"
 	"strings"
 	"sync"
+	"syscall"
 	"testing"
 	"time"
 
@@ -224,9 +225,32 @@ var c07Overrides = []c07Override{
 	// (the phantom answers), another loopback address without one. The ports are set by c07Setup.
 	{name: "loopback-listener", port: &c07LoopbackPorts[0], v4: c07u32(0x7F000001), v6OK: true},
 	{name: "loopback-other-address", port: &c07LoopbackPorts[1], v4: c07u32(0x7F000002), v6OK: true},
+	// a SILENT loopback phantom: a listening socket whose accept queue is full — the kernel drops every further SYN, a dial
+	// times out (the only way to a "did not answer" verdict of the real tester here: every other dial is refused at once)
+	{name: "loopback-silent", port: &c07LoopbackPorts[2], v4: c07u32(0x7F000003), v6OK: true},
 }
 
-var c07LoopbackPorts [2]uint32
+var c07LoopbackPorts [3]uint32
+
+// ground truth for the loopback phantoms, independent of what any tester says: does the host answer a probe (a listener that
+// accepts; a closed port that answers with a reset) or not (the silent one)
+var c07LoopbackAnswers = map[string]bool{"127.0.0.1": true, "127.0.0.2": true, "127.0.0.3": false}
+
+// liveness cache configurations of the runs with the real tester of pkg/station/liveness (index 0: scripted verdicts, no real
+// tester). New entries are appended: the index is part of the replay format.
+var c07CacheConfigs = []struct {
+	name string
+	cfg  liveness.Config
+}{
+	{"scripted", liveness.Config{}},
+	{"uncached", liveness.Config{}},
+	{"live cache only (map)", liveness.Config{CacheDuration: "1h"}},
+	{"non-live cache only (map)", liveness.Config{CacheDurationNonLive: "1h"}},
+	{"both caches (map)", liveness.Config{CacheDuration: "1h", CacheDurationNonLive: "1h"}},
+	{"live cache only (LRU, capacity 1)", liveness.Config{CacheDuration: "1h", CacheCapacity: 1}},
+	{"non-live cache only (LRU, capacity 1)", liveness.Config{CacheDurationNonLive: "1h", CacheCapacityNonLive: 1}},
+	{"both caches (LRU, capacity 1)", liveness.Config{CacheDuration: "1h", CacheCapacity: 1, CacheDurationNonLive: "1h", CacheCapacityNonLive: 1}},
+}
 
 func (ov c07Override) present() bool {
 	return ov.port != nil || ov.v4 != nil || ov.v6 != nil || ov.tparams != 0
@@ -576,6 +600,7 @@ type c07World struct {
 	workers      map[*RegistrationManager]chan interface{} // the ingest worker of each manager is fed through this channel
 	base         int                                       // goroutines when idle
 	selMemo      map[c07SelKey]c07SelAnswer                // answers of the phantom selector (all managers read the same subnet file)
+	keep         []net.Conn                                // connections that fill the accept queue of the silent phantom
 	sharesMissed int                                       // expected share requests that did not come
 }
 
@@ -1542,6 +1567,9 @@ func (w *c07World) oracleStored(st c07Station, rm *RegistrationManager, hist []c
 				w.out.Count("stored-oracle:stored-covert-not-in-the-policy's-spelling")
 			}
 			// stored as needing a liveness probe: its phantom and port were probed and did not answer
+			if answers, known := c07LoopbackAnswers[reg.PhantomIp.String()]; v4 && !reg.PreScanned() && w.realTester != nil && known && answers {
+				fail("phantom did not answer the liveness probe", "stored as not pre-scanned; the host at this loopback address answers probes (ground truth of the harness, whatever the tester said)")
+			}
 			if v4 && !reg.PreScanned() {
 				probed := false
 				for _, e := range hist {
@@ -1601,7 +1629,7 @@ type c07Msg struct {
 	sess int  // which of the shared secrets (clients)
 }
 
-const c07MaxSessions = 4
+const c07MaxSessions = 6
 
 func (m c07Msg) String() string {
 	s := fmt.Sprintf("%s:%c%d", m.cell.String(), c07Station{live: m.live, lerr: m.lerr}.verdictChar(), m.sess)
@@ -1614,7 +1642,11 @@ func (m c07Msg) String() string {
 // real: the liveness verdicts are not scripted but answered by a fresh instance of the real caching tester of
 // pkg/station/liveness (live and not-live verdicts cached for an hour), which dials the phantom: the verdict of each probe is
 // recorded and handed to the model as that message's library verdict.
-func (w *c07World) runSeq(st c07Station, msgs []c07Msg, secrets [][]byte, real bool) (string, string) {
+// cache: 0 = scripted verdicts; k > 0 = the real tester with the liveness cache configuration c07CacheConfigs[k]. In those runs
+// the tester — cache included — is part of what is judged: the oracle's "the phantom did not answer the probe" is the GROUND
+// TRUTH about the loopback phantom (c07LoopbackAnswers), not what the tester said; the model still receives what it said.
+func (w *c07World) runSeq(st c07Station, msgs []c07Msg, secrets [][]byte, cache int) (string, string) {
+	real := cache != 0
 	rm := w.manager(st)
 	w.reset(rm)
 	var ms []string
@@ -1626,8 +1658,9 @@ func (w *c07World) runSeq(st c07Station, msgs []c07Msg, secrets [][]byte, real b
 	st.live, st.lerr, st.peer = false, 0, 0
 	replay := "c07seq|"
 	if real {
-		replay = "c07seqr|"
-		tester, err := liveness.New(&liveness.Config{CacheDuration: "1h", CacheDurationNonLive: "1h"})
+		replay = fmt.Sprintf("c07seqr%d|", cache)
+		cfg := c07CacheConfigs[cache].cfg
+		tester, err := liveness.New(&cfg)
 		if err != nil {
 			w.t.Fatal(err)
 		}
@@ -1665,6 +1698,7 @@ func (w *c07World) runSeq(st c07Station, msgs []c07Msg, secrets [][]byte, real b
 		}
 		// the state of this message's registrations before it is ingested
 		var before, pass c07Pass
+		asked := false // (real tester) it was asked about a phantom while this message was ingested
 		w.famStates(rm, fams, &before)
 		var shareFam [2]bool
 		for fi, v6 := range []bool{false, true} {
@@ -1676,8 +1710,10 @@ func (w *c07World) runSeq(st c07Station, msgs []c07Msg, secrets [][]byte, real b
 		if real {
 			// the verdict the real tester answered while this message was ingested (none: the model does not ask either)
 			stj.live, stj.lerr = false, 0
+			asked = false
 			for _, e := range pass.evs {
 				if e.kind == 'P' {
+					asked = true
 					stj.live, stj.lerr = e.live, e.lerr
 					w.out.Count(fmt.Sprintf("real-tester:verdict:%v:%d", e.live, e.lerr))
 				}
@@ -1685,6 +1721,15 @@ func (w *c07World) runSeq(st c07Station, msgs []c07Msg, secrets [][]byte, real b
 		}
 		wire, selOK := w.wire(rm, stj, c, secret)
 		allSelOK = allSelOK && selOK
+		if real && fams[0].reg != nil {
+			// from here on stj is what the ORACLE judges by: whether the IPv4 phantom really answers a probe
+			if answers, known := c07LoopbackAnswers[fams[0].reg.PhantomIp.String()]; known {
+				if asked && answers != stj.live {
+					w.out.Count(fmt.Sprintf("real-tester:verdict-differs-from-ground-truth:tester-says-live=%v", stj.live))
+				}
+				stj.live, stj.lerr = answers, 0
+			}
+		}
 		if c.garbage {
 			model += "|G"
 		} else {
@@ -2038,6 +2083,7 @@ func c07Setup(t *testing.T, out *vlib.Out) *c07World {
 		}
 	}()
 	c07LoopbackPorts[0] = uint32(ln.Addr().(*net.TCPAddr).Port)
+	c07LoopbackPorts[2] = w.silentListener()
 	if ln2, err := net.Listen("tcp4", "127.0.0.2:0"); err == nil {
 		c07LoopbackPorts[1] = uint32(ln2.Addr().(*net.TCPAddr).Port)
 		ln2.Close()
@@ -2066,6 +2112,43 @@ func c07Setup(t *testing.T, out *vlib.Out) *c07World {
 		}
 	}
 	return w
+}
+
+// silentListener opens a listening socket on 127.0.0.3 with an accept queue of one connection and fills the queue: from then
+// on the kernel drops every SYN to that port, so the phantom 127.0.0.3:port does not answer probes. Returns the port (9, a
+// port that is merely closed, if the socket cannot be set up: the histories then see a phantom that answers with a reset,
+// and the ground truth table says so).
+func (w *c07World) silentListener() uint32 {
+	fd, err := syscall.Socket(syscall.AF_INET, syscall.SOCK_STREAM, 0)
+	if err == nil {
+		err = syscall.Bind(fd, &syscall.SockaddrInet4{Addr: [4]byte{127, 0, 0, 3}})
+	}
+	if err == nil {
+		err = syscall.Listen(fd, 0)
+	}
+	var port int
+	if err == nil {
+		var sa syscall.Sockaddr
+		if sa, err = syscall.Getsockname(fd); err == nil {
+			port = sa.(*syscall.SockaddrInet4).Port
+		}
+	}
+	if err == nil {
+		addr := net.JoinHostPort("127.0.0.3", strconv.Itoa(port))
+		for i := 0; i < 3; i++ {
+			c, derr := net.DialTimeout("tcp4", addr, 150*time.Millisecond)
+			if derr != nil {
+				if ne, ok := derr.(net.Error); ok && ne.Timeout() {
+					return uint32(port) // the queue is full: dials time out
+				}
+				break
+			}
+			w.keep = append(w.keep, c) // sits in the accept queue for the rest of the run
+		}
+	}
+	w.out.Count("real-tester:no-silent-phantom-available")
+	c07LoopbackAnswers["127.0.0.3"] = true
+	return 9
 }
 
 func c07Secret(r *vlib.Rand) []byte { return r.Bytes(32) }
@@ -2291,7 +2374,7 @@ func TestVerifC07(t *testing.T) {
 	// both orders (base first: the later message differs from the one that was admitted; base second: a message that was
 	// dropped or rejected is followed by one that would pass), with the liveness verdict of the later message flipped as well.
 	runSeq := func(st c07Station, msgs []c07Msg, secrets [2][]byte) {
-		m, i := w.runSeq(st, msgs, secrets[:], false)
+		m, i := w.runSeq(st, msgs, secrets[:], 0)
 		out.Case(m, i, true)
 		out.Count(fmt.Sprintf("sequence:length-%d", len(msgs)))
 	}
@@ -2378,7 +2461,7 @@ func TestVerifC07(t *testing.T) {
 			}
 		}
 	}
-	for k, nk := 0, vlib.Budget(6000, 50000); k < nk; k++ {
+	for k, nk := 0, vlib.Budget(6000, 40000); k < nk; k++ {
 		st := allSeqStations[r.Intn(len(allSeqStations))]
 		if r.Bool() {
 			st = openSeqStations[r.Intn(len(openSeqStations))]
@@ -2420,35 +2503,33 @@ func TestVerifC07(t *testing.T) {
 		runSeq(st, msgs, [2][]byte{c07Secret(r), c07Secret(r)})
 	}
 
-	// ---- the real caching liveness tester over histories of several clients on one phantom: client A registers on a phantom
-	// that answers (a listener on the loopback interface; the phantom address comes from a registrar override), is dropped
-	// and the verdict is cached; client B (another secret) registers on the same phantom while the verdict is cached — the
-	// tester answers (true, ErrCachedPhantom); B once more; client C arrives pre-scanned (no probe); client D on another
-	// loopback address (nobody listens: the dial is refused, which the tester reads as an answer). Each probe that is really
-	// sent takes the tester 750 ms, so there are few of these runs.
-	nReal := 0
-	for _, st := range []c07Station{{e4: true, e6: true, share: true}, {e4: true, e6: true}, {e4: true, e6: false, share: true}, {e4: true, e6: true, share: true, block: 2}} {
-		for _, src := range []int{1, 0, 2} {
-			for _, sup := range [][2]bool{{true, true}, {true, false}} {
-				if nReal >= vlib.Budget(2, 6) {
-					continue
-				}
-				nReal++
-				b := c07Cell{payload: true, v4s: sup[0], v6s: sup[1], registrant: 1, source: src, transport: 0, gen: 0, libver: 4, covert: 0, override: 13}
-				ps, other, cov := b, b, b
-				ps.prescanned = true
-				other.override = 14
-				cov.covert = 3
-				msgs := []c07Msg{{cell: b, sess: 0}, {cell: b, sess: 1}, {cell: cov, sess: 1}, {cell: ps, sess: 2}, {cell: b, sess: 3}}
-				if nReal%2 == 0 {
-					msgs = append(msgs, c07Msg{cell: other, sess: 3})
-				}
-				secrets := [][]byte{c07Secret(r), c07Secret(r), c07Secret(r), c07Secret(r)}
-				m, i := w.runSeq(st, msgs, secrets, true)
-				out.Case(m, i, true)
-				out.Count("real-tester:histories")
-			}
+	// ---- the real liveness tester of pkg/station/liveness, under every cache configuration (uncached / live cache only / non-live
+	// cache only / both; map or LRU of capacity 1), over histories of several clients: A registers on a loopback phantom that
+	// answers (dropped); B, another secret, on the same phantom (a cached or a fresh verdict: dropped); B again with another
+	// covert address (duplicate); C on a SILENT loopback phantom (admitted); D, another secret, on the silent one (admitted); E
+	// on the first phantom again (dropped — with an LRU of capacity 1 its entry was evicted by now); F arrives pre-scanned; G on
+	// a loopback address whose port is closed (the reset is an answer: dropped). Judged by the ground truth about the phantoms.
+	// Each probe that is really sent takes the tester 750 ms: quick runs the non-live-only configuration and one other (by
+	// seed), thorough all seven.
+	for k := 1; k < len(c07CacheConfigs); k++ {
+		if !thorough && k != 3 && k != 1+int(vlib.Seed()%int64(len(c07CacheConfigs)-1)) {
+			continue
 		}
+		st := []c07Station{{e4: true, e6: true, share: true}, {e4: true, e6: true}, {e4: true, e6: false, share: true}}[k%3]
+		b := c07Cell{payload: true, v4s: true, v6s: k%2 == 0, registrant: 1, source: []int{1, 0, 2}[k%3], transport: 0, gen: 0, libver: 4, covert: 0, override: 13}
+		ps, closed, silent, cov := b, b, b, b
+		ps.prescanned = true
+		closed.override = 14
+		silent.override = 15
+		cov.covert = 3
+		msgs := []c07Msg{{cell: b, sess: 0}, {cell: b, sess: 1}, {cell: cov, sess: 1}, {cell: silent, sess: 2}, {cell: silent, sess: 3}, {cell: b, sess: 4}}
+		if thorough || k == 3 {
+			msgs = append(msgs, c07Msg{cell: ps, sess: 5}, c07Msg{cell: closed, sess: 5})
+		}
+		secrets := [][]byte{c07Secret(r), c07Secret(r), c07Secret(r), c07Secret(r), c07Secret(r), c07Secret(r)}
+		m, i := w.runSeq(st, msgs, secrets, k)
+		out.Case(m, i, true)
+		out.Count("real-tester:histories:" + c07CacheConfigs[k].name)
 	}
 
 	// ---- the table; the second message of the session cycles through its kinds
@@ -2459,8 +2540,8 @@ func TestVerifC07(t *testing.T) {
 					for _, tr := range pick(2, len(c07Transports)) {
 						for _, g := range pick(4, 5) {
 							for _, ps := range []bool{false, true} {
-								for _, cv := range pick(2, 3) {
-									for _, ov := range pick(3, 5) { // (the table uses the first five overrides)
+								for _, cv := range pick(2, 2) { // (allowed, refused; the other six covert addresses: one-condition slice on every station, sequences)
+									for _, ov := range pick(3, 4) { // (the table uses the first three / four overrides; every override is moved through on every station by the one-condition slice and in the sequences)
 										run(st, c07Cell{payload: true, v4s: sup[0], v6s: sup[1], registrant: rg, source: src, transport: tr, gen: g, libver: 4, prescanned: ps, covert: cv, override: ov,
 											dup: ncell % c07DupKinds, hand: ncell%workerEvery != 0})
 									}
@@ -2535,8 +2616,18 @@ func c07Replay(w *c07World, path string) {
 				p[3], st.e4, st.e6, st.share, c07Blocklists[st.block], st.live, c.v4s, c.v6s, c07Sources[c.source], c.prescanned, c07Coverts[c.covert].addr)
 			continue
 		}
-		if strings.HasPrefix(line, "c07seq|") || strings.HasPrefix(line, "c07seqr|") {
-			real := strings.HasPrefix(line, "c07seqr|")
+		if strings.HasPrefix(line, "c07seq|") || strings.HasPrefix(line, "c07seqr") {
+			cache := 0
+			if strings.HasPrefix(line, "c07seqr") {
+				cache = 4 // `c07seqr|`: both caches, map (older replays)
+				if k := line[len("c07seqr"):strings.Index(line, "|")]; k != "" {
+					var err error
+					if cache, err = strconv.Atoi(k); err != nil || cache < 1 || cache >= len(c07CacheConfigs) {
+						w.t.Fatalf("bad replay line %q: cache configuration", line)
+					}
+				}
+			}
+			real := cache != 0
 			p := strings.Split(line[strings.Index(line, "|")+1:], "/")
 			if len(p) < 4 || len(p) > 2+c07MaxSessions {
 				w.t.Fatalf("bad replay line %q", line)
@@ -2573,10 +2664,10 @@ func c07Replay(w *c07World, path string) {
 				}
 				secrets = append(secrets, sec)
 			}
-			m, i := w.runSeq(st, msgs, secrets, real)
+			m, i := w.runSeq(st, msgs, secrets, cache)
 			w.out.Case(m, i, true)
 			if real {
-				fmt.Println("REPLAY liveness verdicts: answered by the real caching tester of pkg/station/liveness (loopback phantoms), not scripted")
+				fmt.Printf("REPLAY liveness verdicts: answered by the real tester of pkg/station/liveness, cache configuration: %s; loopback phantoms: 127.0.0.1 answers (listener), 127.0.0.2 answers (reset), 127.0.0.3 answers=%v\n", c07CacheConfigs[cache].name, c07LoopbackAnswers["127.0.0.3"])
 			}
 			fmt.Printf("REPLAY sequence of %d message(s); station: v4=%v v6=%v share=%v blocklist=%v covert blocklist=%s\n", len(msgs), st.e4, st.e6, st.share, c07Blocklists[st.block], c07CovertBlocklist)
 			for k, mm := range msgs {
